@@ -11,6 +11,17 @@ import tempfile
 S = 'Sheet1!'
 
 
+class ErrV(str):
+    """An Excel error value in a model's reference arithmetic."""
+
+
+def obs(v, lib):
+    """Observation string of a reference value."""
+    if isinstance(v, ErrV):
+        return 'err:' + v
+    return lib.norm(v)
+
+
 class ModelSpec:
     def __init__(self, name, cells, inputs, values, ref, names=None,
                  order=None, eval_cells=None):
@@ -185,6 +196,26 @@ def branch():
          D1: lambda g: g(C1) + 1})
 
 
+def errrange():
+    """An error value inside a summed range that comes and goes with an
+    input; the error is inspected two levels up."""
+    A1, B1, B2, B3, C1, D1 = (S + x for x in
+                              ('A1', 'B1', 'B2', 'B3', 'C1', 'D1'))
+    NA = ErrV('#N/A')
+
+    def c1(g):
+        if isinstance(g(B2), ErrV):
+            return g(B2)
+        return g(B1) + g(B2) + g(B3)
+    return ModelSpec(
+        'errrange',
+        {A1: 5, B1: '=A1+1', B2: '=IF(A1>3,NA(),2)', B3: 3,
+         C1: '=SUM(B1:B3)', D1: '=IF(ISERROR(C1),-1,C1)'},
+        [A1], [0, 5],
+        {B1: lambda g: g(A1) + 1, B2: lambda g: NA if g(A1) > 3 else 2,
+         C1: c1, D1: lambda g: -1 if isinstance(g(C1), ErrV) else g(C1)})
+
+
 def lookup():
     """A lookup whose key is an input."""
     cells = {S + 'A1': 0, S + 'B1': 10, S + 'A2': 5, S + 'B2': 20,
@@ -203,7 +234,7 @@ def lookup():
 
 
 ALL = [chain, diamond, sumrange, formularange, crosssheet, textmodel, named,
-       branch, lookup]
+       branch, lookup, errrange]
 ALL_C05 = ALL + [twodim, longrange]
 
 
